@@ -233,7 +233,22 @@ def run(ctx):
     # the whole record and be the length a second call arrives at (seed C09-V of round 9 chose 2**15 for a record of 2**15 + 1 samples)
     boundary = [32767, 32768, 32769, 65535, 65536, 65537]
     nb = ctx.budget(3, 12)
-    for i in range(n + nb):
+    # every family sees a gap (NaN) and a clipped sample (+-inf) in a horizontal and in the vertical on every run, not only when the random stream
+    # happens to put one there (seed C09-Z of round 10 zeroed them in place on the RotDpp path only)
+    forced = [(fam_i, comp, val) for fam_i in range(6) for comp, val in (("ns", np.nan), ("ew", np.inf), ("vt", -np.inf))]
+    for i in range(n + nb + len(forced)):
+        if i >= n + nb:
+            fam_i, comp, val = forced[i - n - nb]
+            c = gen_case(rng, fam_i)
+            if c["smoothing"] is None:
+                continue
+            k = len(c["records"]) - 1
+            c["records"][k][comp] = list(c["records"][k][comp]); c["records"][k][comp][len(c["records"][k][comp]) // 2] = float(val)
+            ctx.count("forced_nonfinite:" + c["family"])
+            check_case(ctx, c, rng)
+            ctx.case((c["family"], c.get("method"), c["fft"], c["width"], c["records"]), nontrivial=True,
+                     sample=dict(family=c["family"], method=c.get("method"), fft=pg.fft_token(c["fft"]), n_records=len(c["records"]), width=c["width"], forced=comp))
+            continue
         c = gen_case(rng, i if i < n else int(rng.choice([0, 1, 4, 5])))
         if i >= n and c["smoothing"] is not None:
             Lb = boundary[(ctx.seed + i) % len(boundary)]
